@@ -237,7 +237,6 @@ func (pr *prover) prove(g goal, p point, depth int) bool {
 	return false
 }
 
-
 // sliceBound is one bound of one slice expression.
 type sliceBound struct {
 	Slice *ssa.Slice
